@@ -761,6 +761,20 @@ func genC03(repo string) (string, error) {
 	fmt.Fprintf(&sb, "def afterAddCheck : String := %s\n", strconv.Quote(findIfCond(FindFunc(cj, "compactFlusher", "afterAdd"), "maxFileSize")))
 	fmt.Fprintf(&sb, "def doMergeCalls : List String := %s\n", LeanStrList(CallSeq(FindFunc(cj, "compactJob", "doMerge"))))
 	fmt.Fprintf(&sb, "def installCalls : List String := %s\n", LeanStrList(CallSeq(FindFunc(cj, "compactJob", "installCompactionResults"))))
+	// round 10: positional TSD decoders shared by the fields and series of one Merge call
+	if _, tsdF, err := ParseFile(repo, "pkg/encoding/tsd.go"); err == nil {
+		fmt.Fprintf(&sb, "/-- `TSDDecoder.HasValueWithSlot`: its if-tree (range test, then the position test with `idx++`); the statements of\n`ResetWithTimeRange`; `seriesMerger.merge`: its if-tree (a decoder is reset only under `len(fieldData) > 0`); `merger.Merge`: where\nthe decoder slice is allocated (once per call) -/\n")
+		fmt.Fprintf(&sb, "def hasValueWithSlotIfTree : List String := %s\n", LeanStrList(ifTreeRet(FindFunc(tsdF, "TSDDecoder", "HasValueWithSlot"))))
+		fmt.Fprintf(&sb, "def hasValueWithSlotStmts : List String := %s\n", LeanStrList(stmtHeads(FindFunc(tsdF, "TSDDecoder", "HasValueWithSlot"))))
+		fmt.Fprintf(&sb, "def tsdResetAssigns : List String := %s\n", LeanStrList(assignsIn(FindFunc(tsdF, "TSDDecoder", "reset"), "d.idx")))
+		fmt.Fprintf(&sb, "def resetWithTimeRangeStmts : List String := %s\n", LeanStrList(stmtHeads(FindFunc(tsdF, "TSDDecoder", "ResetWithTimeRange"))))
+	}
+	if _, smF, err := ParseFile(repo, "tsdb/tblstore/metricsdata/series_merger.go"); err == nil {
+		fmt.Fprintf(&sb, "def seriesMergeIfTree : List String := %s\n", LeanStrList(ifTreeRet(FindFunc(smF, "seriesMerger", "merge"))))
+	}
+	if _, mgF, err := ParseFile(repo, "tsdb/tblstore/metricsdata/merger.go"); err == nil {
+		fmt.Fprintf(&sb, "def mergeDecoderAlloc : List String := %s\n", LeanStrList(filterContains(stmtHeads(FindFunc(mgF, "merger", "Merge")), "decodeStreams")))
+	}
 	// round 10: opening the inputs of a merge job (makeInputIterator) and the error propagation of doMerge
 	mii := FindFunc(cj, "compactJob", "makeInputIterator")
 	miiTree := ifTreeRet(mii)
